@@ -317,7 +317,9 @@ func writeStrictASCII(sb *strings.Builder, s string, quote byte) {
 				sb.WriteByte(quote)
 				inRun = true
 			}
-			if c == quote || c == '\\' {
+			// '>' must be escaped too: inside a quoted run the strict parser reads an
+			// unescaped '>' as the item terminator (unclosed-quote error).
+			if c == quote || c == '\\' || c == '>' {
 				sb.WriteByte('\\')
 			}
 			sb.WriteByte(c)
